@@ -1,10 +1,12 @@
 (* C06 property theorems: statements only, each closed by `exact`, pinned by `Check`, with its assumptions
-   printed.  The sf_* constants/functions are regenerated from slot.rs on every run.  Model_C06.v follows the code after
-   the fixes 9cca1b6 / 8ab7f21 / 8316c55; Old_C06.v keeps the transitions before them (the `_old` theorems). *)
+   printed.  The sf_* constants/functions are regenerated from slot.rs on every run.  Model_C06.v follows the code after the
+   fixes 9cca1b6 / 8ab7f21 / 8316c55 / 26b9acc; accessor functions have bodies (heap operations), InlineCache::set has three
+   re-check modes: RNone (before 26b9acc), RIndex (26b9acc = the engine now), RFull (proposed).  Old_C06.v keeps the transitions
+   before the first three fixes (the `_old` theorems). *)
 From Coq Require Import NArith Bool List.
 From Gen Require Import SlotFlags.
 From C06 Require Old_C06.
-From C06 Require Import Model_C06 Proofs_C06 ProofsB_C06 ProofsC_C06.
+From C06 Require Import Model_C06 Proofs_C06 ProofsB_C06 ProofsC_C06 Deep_C06.
 Import ListNotations.
 Local Open Scope N_scope.
 
@@ -19,21 +21,21 @@ Check shift_trick_correct : forall a,
   if has_flag a sf_PROTOTYPE then N.lor a sf_NOT_CACHEABLE else a.
 Print Assumptions shift_trick_correct.
 
-(* the cache invariant: every entry of every site records facts about shape identities that no heap step can change: the own
-   slot of the key in the entry's shape, or (PROTOTYPE-flagged) the slot of the key in the remembered prototype shape and,
-   for a shared receiver shape, the absence of the key in it *)
+(* the cache invariant: every entry of every site records facts about shape identities that no heap step can change *)
 Theorem ic_valid_init : IC_valid init.
 Proof. exact IC_valid_init. Qed.
 Check ic_valid_init : IC_valid init.
 Print Assumptions ic_valid_init.
 
-(* it is preserved by every operation: define, delete, reconfigure, freeze, setPrototypeOf, preventExtensions, alloc, cached
-   get / set / global-name get incl. dropping a stale entry, storing an entry and going megamorphic, eviction of weak entries *)
-Theorem ic_valid_preserved : forall o st outs st',
-  IC_valid st -> hit_irregular st o = false -> step false st o <> None -> step true st o = Some (outs, st') -> IC_valid st'.
+(* it is preserved by every operation, in every re-check mode and with arbitrary accessor bodies, provided the step does not
+   store an entry that fails to describe the receiver (the ghost marker OBadStore) *)
+Theorem ic_valid_preserved : forall rc ft o st outs st',
+  IC_valid st -> hit_irregular st o = false -> step rc false ft st o <> None ->
+  step rc true ft st o = Some (outs, st') -> existsb is_bad outs = false -> IC_valid st'.
 Proof. exact IC_valid_step_lemma. Qed.
-Check ic_valid_preserved : forall o st outs st',
-  IC_valid st -> hit_irregular st o = false -> step false st o <> None -> step true st o = Some (outs, st') -> IC_valid st'.
+Check ic_valid_preserved : forall rc ft o st outs st',
+  IC_valid st -> hit_irregular st o = false -> step rc false ft st o <> None ->
+  step rc true ft st o = Some (outs, st') -> existsb is_bad outs = false -> IC_valid st'.
 Print Assumptions ic_valid_preserved.
 
 (* a key found in a shape identity stays found there at the same slot, whatever [[Set]] does to the heap *)
@@ -46,20 +48,73 @@ Check set_keeps_shape_lookups : forall fuel h o k v r sl tr h' ok sl' s k' x,
   lookup_shape h s k' = Some x -> lookup_shape h' s k' = Some x.
 Print Assumptions set_keeps_shape_lookups.
 
-(* transparency of the repaired caches, for every history: no mutation class is excepted any more.  Two side conditions:
-   the uncached engine does not panic on the history, and no hit reads an accessor slot that lacks its GET/SET flag or holds a
-   non-callable getter ([Irregular]: such slots are made only by builtins' direct PropertyMap::insert, never by an operation
-   of a history run as JavaScript; the check evaluates first_irregular on every history it generates) *)
-Theorem ic_transparent : forall ops,
-  ~ Irregular ops -> ~ In None (run_uncached ops) ->
-  observable (run_cached ops) = observable (run_uncached ops).
-Proof. exact ic_transparent_lemma. Qed.
-Check ic_transparent : forall ops,
-  ~ Irregular ops -> ~ In None (run_uncached ops) ->
-  observable (run_cached ops) = observable (run_uncached ops).
-Print Assumptions ic_transparent.
+(* transparency for every re-check mode, every table of accessor bodies and every history in which no step stores a
+   non-describing entry (BadStore, decidable) -- plus the two side conditions of the earlier rounds *)
+Theorem ic_transparent_modes : forall rc ft ops,
+  ~ Irregular rc ft ops -> ~ BadStore rc ft ops -> ~ In None (run rc false ft init ops) ->
+  observable (run rc true ft init ops) = observable (run rc false ft init ops).
+Proof. exact ic_transparent_modes_lemma. Qed.
+Check ic_transparent_modes : forall rc ft ops,
+  ~ Irregular rc ft ops -> ~ BadStore rc ft ops -> ~ In None (run rc false ft init ops) ->
+  observable (run rc true ft init ops) = observable (run rc false ft init ops).
+Print Assumptions ic_transparent_modes.
 
-(* the five histories that refuted transparency before the fixes are transparent now (and the cached run does not panic) *)
+(* the engine as it is now (index-only re-check): transparent except when an accessor body changes the served property so
+   that the stored entry no longer describes the receiver *)
+Theorem ic_transparent_except_known : forall ft ops,
+  ~ Irregular RIndex ft ops -> ~ BadStore RIndex ft ops -> ~ In None (run_uncached ft ops) ->
+  observable (run_cached ft ops) = observable (run_uncached ft ops).
+Proof. exact (ic_transparent_modes_lemma RIndex). Qed.
+Check ic_transparent_except_known : forall ft ops,
+  ~ Irregular RIndex ft ops -> ~ BadStore RIndex ft ops -> ~ In None (run_uncached ft ops) ->
+  observable (run_cached ft ops) = observable (run_uncached ft ops).
+Print Assumptions ic_transparent_except_known.
+
+(* with the full re-check (index and attributes, receiver without own property for PROTOTYPE slots) no exception is left *)
+Theorem ic_transparent_full_recheck : forall ft ops,
+  ~ Irregular RFull ft ops -> ~ In None (run RFull false ft init ops) ->
+  observable (run RFull true ft init ops) = observable (run RFull false ft init ops).
+Proof. exact ic_transparent_full_recheck_lemma. Qed.
+Check ic_transparent_full_recheck : forall ft ops,
+  ~ Irregular RFull ft ops -> ~ In None (run RFull false ft init ops) ->
+  observable (run RFull true ft init ops) = observable (run RFull false ft init ops).
+Print Assumptions ic_transparent_full_recheck.
+
+(* before 26b9acc: a getter that deletes its own property (C02's program); the cached run panics on the third read *)
+Theorem ic_store_after_user_code_old_refuted :
+  refuted_mode RNone ft_delete w_delete /\ In None (run RNone true ft_delete init w_delete) /\
+  BadStore RNone ft_delete w_delete /\ transparent_mode RIndex ft_delete w_delete.
+Proof. exact ic_store_after_user_code_old_refuted_lemma. Qed.
+Check ic_store_after_user_code_old_refuted :
+  refuted_mode RNone ft_delete w_delete /\ In None (run RNone true ft_delete init w_delete) /\
+  BadStore RNone ft_delete w_delete /\ transparent_mode RIndex ft_delete w_delete.
+Print Assumptions ic_store_after_user_code_old_refuted.
+
+(* 26b9acc is still refuted: lazy memoisation on the receiver, getter turning itself into a data property holding a function,
+   setter turning itself into a data property (cached run panics) *)
+Theorem ic_store_index_recheck_refuted :
+  (refuted_mode RIndex ft_memo w_memo /\ BadStore RIndex ft_memo w_memo) /\
+  (refuted_mode RIndex ft_selfdata w_selfdata /\ BadStore RIndex ft_selfdata w_selfdata) /\
+  (refuted_mode RIndex ft_setdata w_setdata /\ BadStore RIndex ft_setdata w_setdata /\
+   In None (run RIndex true ft_setdata init w_setdata) /\ ~ In None (run RIndex false ft_setdata init w_setdata)).
+Proof. exact ic_store_index_recheck_refuted_lemma. Qed.
+Check ic_store_index_recheck_refuted :
+  (refuted_mode RIndex ft_memo w_memo /\ BadStore RIndex ft_memo w_memo) /\
+  (refuted_mode RIndex ft_selfdata w_selfdata /\ BadStore RIndex ft_selfdata w_selfdata) /\
+  (refuted_mode RIndex ft_setdata w_setdata /\ BadStore RIndex ft_setdata w_setdata /\
+   In None (run RIndex true ft_setdata init w_setdata) /\ ~ In None (run RIndex false ft_setdata init w_setdata)).
+Print Assumptions ic_store_index_recheck_refuted.
+
+Theorem ic_store_full_recheck_witness :
+  transparent_mode RFull ft_delete w_delete /\ transparent_mode RFull ft_memo w_memo /\
+  transparent_mode RFull ft_selfdata w_selfdata /\ transparent_mode RFull ft_setdata w_setdata.
+Proof. exact ic_store_full_recheck_witness_lemma. Qed.
+Check ic_store_full_recheck_witness :
+  transparent_mode RFull ft_delete w_delete /\ transparent_mode RFull ft_memo w_memo /\
+  transparent_mode RFull ft_selfdata w_selfdata /\ transparent_mode RFull ft_setdata w_setdata.
+Print Assumptions ic_store_full_recheck_witness.
+
+(* the five histories that refuted transparency before the first three fixes are transparent now *)
 Theorem fixed_witness :
   transparent_on w_proto_layout /\ transparent_on w_proto_panic /\ transparent_on w_unique_attr /\
   transparent_on w_unique_shadow /\ transparent_on w_setter_missing.
@@ -92,7 +147,9 @@ Check proto_panic_witness_old :
   In None (Old_C06.run_cached_old Old_C06.w_proto_panic) /\ ~ In None (Old_C06.run_uncached_old Old_C06.w_proto_panic).
 Print Assumptions proto_panic_witness_old.
 
-(* the hypotheses of ic_transparent are satisfiable by a history that exercises own, prototype and global hits, cached strict
-   sets, stale prototype entries being dropped, a receiver layout change and a megamorphic site *)
-Example clean_history : ~ Irregular w_clean /\ ~ In None (run_uncached w_clean) /\ hits (run_cached w_clean) = 8%nat.
+(* the hypotheses of ic_transparent_except_known are satisfiable by a history with accessor bodies, own / prototype / global hits,
+   cached strict sets, stale prototype entries being dropped and a receiver layout change *)
+Example clean_history :
+  ~ Irregular RIndex ft_clean w_clean /\ ~ BadStore RIndex ft_clean w_clean /\ ~ In None (run_uncached ft_clean w_clean) /\
+  hits (run_cached ft_clean w_clean) = 9%nat.
 Proof. exact clean_history_lemma. Qed.
